@@ -16,6 +16,7 @@ fn main() {
     std::panic::set_hook(Box::new(|_| {}));
     let mut rng = Rng::new(seed);
     let (mut skipped_err, mut skipped_unsat) = (0usize, 0usize);
+    let mut skipped_far = 0usize;
     for i in 0..n {
         let mut sys = match i % 4 {
             0 => gen_planted(&mut rng, 15, 1e-3, &SHAPES),
@@ -101,6 +102,14 @@ fn main() {
         }
         let x = o.outcome.final_values().to_vec();
         let nv = x.len();
+        // sketches drawn far away from the origin are left out: the finite-difference linearisation
+        // below (step 1e-6 x size) is dominated by rounding noise at coordinates of 1e5..1e6, so the
+        // "clear gap" this oracle needs cannot be established there (the freedom analysis of such
+        // sketches is still tied to the model by corr-trace's SVD certificate)
+        if x.iter().any(|v| v.abs() > 1e3 * sys.scale.max(1.0)) {
+            skipped_far += 1;
+            continue;
+        }
         let mut rows: Vec<Vec<f64>> = Vec::new();
         let mut flagged = false;
         for r in sys.reqs.iter().filter(|r| r.priority() <= o.outcome.priority_solved()) {
@@ -136,6 +145,6 @@ fn main() {
             x.iter().map(|v| format!("{v:e}")).collect::<Vec<_>>().join(", ")
         );
     }
-    println!("SKIPPED {{\"errors\": {skipped_err}, \"unsatisfied_or_slow\": {skipped_unsat}}}");
+    println!("SKIPPED {{\"errors\": {skipped_err}, \"unsatisfied_or_slow\": {skipped_unsat}, \"far_from_the_origin\": {skipped_far}}}");
     println!("DONE {n}");
 }
